@@ -15,7 +15,7 @@ rsync -a --delete --exclude target --exclude 'run' --exclude '.build*' /verif/ha
 mkdir -p $ISO/verif/harness
 sed -i "s#path = \"/repo\"#path = \"$ISO/repo\"#" $ISO/verif/harness/Cargo.toml
 for id in "$@"; do
-  out=$(VERIF_ROOT=$ISO/verif VERIF_EVIDENCE=$ISO/verif/ev-$id.json $ISO/verif/check "$id" quick 2>&1); rc=$?
+  out=$(VERIF_ROOT=$ISO/verif VERIF_EVIDENCE=$ISO/verif/ev-$id.json $ISO/verif/check "$id" ${MODE:-quick} 2>&1); rc=$?
   echo "== $id rc=$rc :: $(echo "$out" | grep -E 'violation:|VIOLATION|BUILD FAILED|WATCHDOG' | head -3 | tr '\n' ' ' | cut -c1-500)"
 done
 git -C $ISO/repo checkout -q -- .
